@@ -82,7 +82,7 @@ func apply(h http.Header, s Spec) (int64, []string, http.Header) {
 	if s.ContentType != "" {
 		h["Content-Type"] = []string{s.ContentType}
 	}
-	h["X-Multi"] = []string{"a", "b"}
+	h["X-Multi"] = []string{"b", "a"} // repeated, and not in sorted order
 	cl := int64(len(s.Wire))
 	var te []string
 	var tr http.Header
